@@ -19,7 +19,7 @@ ASSUMPTIONS = ["value form only for games that are stopping with zero-reward abs
                "scope with pruning: states reachable from state 0 in the conditioned game; without: all states",
                "band |rew - V| <= 1e-6*T_max(s) + 1e-9*max(1,|V|)"]
 TIMEOUT = 1800
-TABLE = [("G-ACY", 700), ("G-CYC", 700), ("G-SLOW", 200), ("G-DEAD", 700), ("G-LEX", 350), ("G-TIE", 200), ("G-TIEC", 200), ("G-TINYB", 400), ("G-RNEAR", 100), ("G-AUXFAST", 40), ("G-DUPL", 300), ("G-MIX", 500), ("G-SMALLX", 200), ("G-VSLOW", 3), ("G-GAP", 300), ("G-GAPLOOP", 150), ("G-CORR", 200), ("G-BIGR", 150), ("G-DIGIT", 250)]
+TABLE = [("G-ACY", 700), ("G-CYC", 700), ("G-SLOW", 200), ("G-DEAD", 700), ("G-LEX", 350), ("G-TIE", 200), ("G-TIEC", 200), ("G-TINYB", 400), ("G-RNEAR", 100), ("G-AUXFAST", 40), ("G-DUPL", 300), ("G-MIX", 500), ("G-SMALLX", 200), ("G-VSLOW", 3), ("G-GAP", 300), ("G-GAPLOOP", 150), ("G-CORR", 200), ("G-BIGR", 150), ("G-DIGIT", 250), ("G-RETRY", 200)]
 
 
 def plan(tier, seed):
